@@ -57,7 +57,9 @@ class Probes:
         return v
 
     # -- contract oracle: c(kind, owner, idx, time[, __old__])
-    def c(self, ck, owner, idx, time, old=0, nbox=0):
+    def c(self, ck, owner, idx, time, old=0, nbox=0, aft=None, idl=None):
+        if aft is not None:      # post-conditions and invariants: what after(1) / idle(1) answer here
+            self.log.append(loge('ctime', owner, 1 if aft else 0, 1 if idl else 0, 0, 0, time))
         self.cnt += 1
         ok = self.cnt != self.cfail
         if old == 0:          # precondition: no __old__ in scope
